@@ -42,6 +42,25 @@
 (*   DevFirstSenderBecomesClient  the association records the first        *)
 (*        datagram's source as the reply address before any filtering and  *)
 (*        filters only against the address declared in the request         *)
+(*   DevDeclaredOverridesPeer  a declared address replaces (instead of     *)
+(*        adding to) the check against the control connection's peer       *)
+(*   DevDeclaredDroppedWhenPeerUnknown  the handler keeps a declared       *)
+(*        address only if it equals the control peer's - and drops it too  *)
+(*        when the peer is unknown (WebSocket), leaving no filter at all   *)
+(*   DevCredentialCacheCollision  verified credentials are cached under a  *)
+(*        key that does not separate name and password: after a valid      *)
+(*        login on this server the same bytes split differently pass       *)
+(*   DevUnknownUserDummyPassword  an unknown user name is compared against *)
+(*        a constant of the source code and the result is returned         *)
+(*                                                                         *)
+(* Owner of a UDP association (C22): the source IP of the control          *)
+(* connection, whatever the request declares.  Behind the WebSocket        *)
+(* listener the handler cannot see that IP (wsConn.RemoteAddr() is nil):   *)
+(* there the owner is the address declared in the request, and if nothing  *)
+(* is declared the statement leaves no identity to check (anything goes).  *)
+(*                                                                         *)
+(* Several connections can follow each other on one running server         *)
+(* (NewConn): the server keeps cfg and whatever it learned (`warm`).       *)
 (***************************************************************************)
 EXTENDS Naturals, Sequences, FiniteSets, TLC, Json
 
@@ -51,7 +70,9 @@ CONSTANTS Scope,       \* which bounded instance (alphabets / configurations), s
           MaxDgrams,   \* datagrams per association
           MaxReplies   \* mesh replies per association
 
-DevNames == {"DevEmptyListDefaultsToNoAuth", "DevEmptyPasswordMatches", "DevFirstSenderBecomesClient"}
+DevNames == {"DevEmptyListDefaultsToNoAuth", "DevEmptyPasswordMatches", "DevFirstSenderBecomesClient",
+             "DevDeclaredOverridesPeer", "DevDeclaredDroppedWhenPeerUnknown",
+             "DevCredentialCacheCollision", "DevUnknownUserDummyPassword"}
 ASSUME Dev \subseteq DevNames
 
 Range(s) == {s[i] : i \in DOMAIN s}
@@ -68,21 +89,28 @@ R(c, a, k) == [t |-> "R", cmd |-> c, addr |-> a, k |-> k]
 W(k)       == [t |-> "WS", k |-> k]                  \* WebSocket upgrade with HTTP basic credentials none|valid|invalid
 D(s, k)    == [t |-> "DG", s |-> s, k |-> k]         \* datagram at the relay socket from sender s, header ok|bad
 MR         == [t |-> "MR"]                           \* a reply for the client arrives from the mesh
+NC         == [t |-> "NC"]                           \* a new client connection to the same running server
 EOF        == [t |-> "EOF"]                          \* the client closes the TCP / WebSocket connection
 
 CredKinds == {"valid",     \* name and password of the user of the effective credential store
               "shadowed",  \* name and password of the plaintext user when a hashed user exists (class both)
               "wrongpw", "unknown",
+              "shiftl", "shiftr",   \* the valid name and password with the boundary moved: alic / ewonderland
+              "magic",     \* a string literal of the implementation's source used as credential (the harness tries
+                           \* every literal as unknown-user password, known-user password and as both)
               "emptypw",   \* name of the unusable user (or an unknown name) with an empty password
               "nouser",    \* ULEN = 0
               "badver",    \* sub-negotiation version 2
               "trunc1", "truncu", "truncp"}   \* cut after VER / inside UNAME / inside PASSWD
 Cmds  == {"connect", "bind", "udp", "icmp", "badcmd"}
-Addrs == {"ip4", "ip6", "dom", "zero4", "zero6", "dom0", "badatyp"}
+Addrs == {"ip4", "ip6", "dom", "zero4", "zero6", "dom0", "badatyp",
+          "ip4str"}    \* (UDP ASSOCIATE) declares a stranger's address instead of the client's own ("ip4")
+DeclOf(a) == CASE a \in {"ip4", "ip6"} -> "own" [] a = "ip4str" -> "str" [] OTHER -> "none"
 ReqKinds == {"full", "thdr", "taddr", "tport", "badver"}   \* cut inside header / address / port; VER = 4
 
-Senders == {"own1", "own2", "str1", "str2"}   \* own* : source IP of the TCP control connection; str* : another IP
-IpOf(s) == IF s \in {"own1", "own2"} THEN "own" ELSE "str"
+Senders == {"own1", "own2", "str1", "str2"}   \* own* : source IP of the control connection; str1, str2 : two other IPs
+                                               \* ("str" = str1's IP is the one a request may name instead of its own)
+IpOf(s) == CASE s \in {"own1", "own2"} -> "own" [] s = "str1" -> "str" [] OTHER -> "oth"   \* three distinct IPs
 
 \* sensible request tokens: a truncation point must exist in the encoding
 ReqOK(c, a, k) ==
@@ -101,7 +129,9 @@ Configs ==
     [] Scope = "ws" ->
          {Cfg("ws", a, u, TRUE, TRUE, "ok") : a \in BOOLEAN, u \in UserClasses}
     [] Scope \in {"udp-quick", "udp-thorough"} ->
-         {Cfg("raw", FALSE, "none", TRUE, TRUE, "ok")}
+         {Cfg("raw", FALSE, "none", TRUE, TRUE, "ok"), Cfg("ws", FALSE, "none", TRUE, TRUE, "ok")}
+    [] Scope \in {"hs-session", "hs-session3"} ->
+         {Cfg("raw", TRUE, u, TRUE, TRUE, "ok") : u \in {"none", "plain", "hashed", "mixed", "both"}}
 
 Greetings ==
   CASE Scope = "hs-quick" ->
@@ -113,11 +143,14 @@ Greetings ==
           G("badver", <<0>>), G("badver", <<2>>), G("trunc1", <<>>), G("trunc", <<0>>), G("trunc", <<2>>),
           G("trunc", <<>>)}
     [] Scope = "ws" -> {G("ok", <<0>>), G("ok", <<2>>), G("ok", <<0, 2>>), G("trunc1", <<>>)}
+    [] Scope \in {"hs-session", "hs-session3"} -> {G("ok", <<2>>)}
     [] OTHER -> {G("ok", <<0>>)}
 
 Creds ==
   CASE Scope \in {"hs-quick", "hs-thorough"} -> {A(k) : k \in CredKinds}
     [] Scope = "ws" -> {A(k) : k \in {"valid", "wrongpw", "emptypw", "truncu"}}
+    [] Scope \in {"hs-session", "hs-session3"} ->
+         {A(k) : k \in {"valid", "shadowed", "wrongpw", "unknown", "shiftl", "shiftr", "magic", "emptypw"}}
     [] OTHER -> {}
 
 Requests ==
@@ -130,9 +163,13 @@ Requests ==
          \cup {R("udp", "ip4", "tport"), R("icmp", "dom", "taddr"), R("bind", "badatyp", "full")}
     [] Scope = "hs-thorough" -> AllRequests
     [] Scope = "ws" -> {R(c, "ip4", "full") : c \in Cmds} \cup {R("connect", "dom", "full"), R("connect", "ip4", "tport")}
-    [] OTHER -> {R("udp", a, "full") : a \in {"zero4", "ip4", "dom"}}
+    [] Scope \in {"hs-session", "hs-session3"} -> {R("connect", "ip4", "full")}
+    [] OTHER -> {R("udp", a, "full") : a \in {"zero4", "ip4", "dom", "ip4str"}}
 
-WsTokens == IF Scope = "ws" THEN {W("none"), W("valid"), W("invalid")} ELSE {}
+WsTokens == CASE Scope = "ws" -> {W("none"), W("valid"), W("invalid")}
+              [] Scope \in {"udp-quick", "udp-thorough"} -> {W("none")}
+              [] OTHER -> {}
+MaxConns == CASE Scope = "hs-session" -> 2 [] Scope = "hs-session3" -> 3 [] Scope = "trace" -> 1000000 [] OTHER -> 1
 
 DgSenders == CASE Scope = "udp-quick" -> {"own1", "str1"}
                [] Scope = "udp-thorough" -> {"own1", "own2", "str1", "str2"}
@@ -148,28 +185,33 @@ VARIABLES cfg,        \* configuration record
           exec,       \* command executed for this client: "" | connect | udp | icmp
           nrep,       \* ghost: number of SOCKS5 replies (REP messages) written
           assoc,      \* UDP association: none | open | closed
-          declared,   \* the ASSOCIATE request carried a client address
+          declared,   \* client address the association filters on: none | own | str
+          reqdecl,    \* ghost: client address named in the ASSOCIATE request: none | own | str
+          warm,       \* a valid login already happened on this server (earlier connection included)
+          nconn,      \* connections opened on this server so far
           client,     \* reply address recorded by the association: "none" or a sender
           relayed,    \* senders whose datagrams were relayed into the mesh, in order
           replies,    \* destinations of the replies sent from the relay socket, in order
           ndg, nmr,   \* bounds
           last        \* observation of the last step
 
-vars == <<cfg, phase, method, authed, sentValid, exec, nrep, assoc, declared, client, relayed, replies, ndg, nmr, last>>
-view == <<cfg, phase, method, authed, sentValid, exec, nrep, assoc, declared, client, relayed, replies, ndg, nmr>>
+vars == <<cfg, phase, method, authed, sentValid, exec, nrep, assoc, declared, reqdecl, warm, nconn, client, relayed,
+          replies, ndg, nmr, last>>
+view == <<cfg, phase, method, authed, sentValid, exec, nrep, assoc, declared, reqdecl, warm, nconn, client, relayed,
+          replies, ndg, nmr>>
 
 Fresh(c) ==
   /\ cfg = c
   /\ phase = IF c.tr = "ws" THEN "http" ELSE "greet"
   /\ method = "none" /\ authed = FALSE /\ sentValid = FALSE /\ exec = "" /\ nrep = 0
-  /\ assoc = "none" /\ declared = FALSE /\ client = "none" /\ relayed = <<>> /\ replies = <<>>
-  /\ ndg = 0 /\ nmr = 0
+  /\ assoc = "none" /\ declared = "none" /\ reqdecl = "none" /\ client = "none" /\ relayed = <<>> /\ replies = <<>>
+  /\ ndg = 0 /\ nmr = 0 /\ warm = FALSE /\ nconn = 1
   /\ last = [act |-> "Init"]
 
 Init == \E c \in Configs : Fresh(c)
 
-udpVars == <<assoc, declared, client, relayed, replies, ndg, nmr>>
-hsVars  == <<method, authed, sentValid, exec, nrep>>
+udpVars == <<assoc, declared, reqdecl, client, relayed, replies, ndg, nmr>>
+hsVars  == <<method, authed, sentValid, exec, nrep, warm, nconn>>
 
 \* dev: name of the deviation this step relied on ("" for a step of the ideal design)
 ObsD(tok, rep, ex, res, d) == last' = [tok |-> tok, rep |-> rep, ex |-> ex, res |-> res, dev |-> d]
@@ -190,6 +232,12 @@ MethodNo(a) == IF a = "noauth" THEN 0 ELSE 2
 Accepts(c, k) ==
   \/ k = "valid" /\ Usable(c.users)
   \/ k = "emptypw" /\ c.users \in {"unusable", "mixed"} /\ "DevEmptyPasswordMatches" \in Dev
+  \/ k \in {"shiftl", "shiftr"} /\ Usable(c.users) /\ warm /\ "DevCredentialCacheCollision" \in Dev
+  \/ k = "magic" /\ c.users \notin {"hashed", "both"} /\ "DevUnknownUserDummyPassword" \in Dev
+AcceptDev(k) == CASE k = "emptypw" -> "DevEmptyPasswordMatches"
+                  [] k \in {"shiftl", "shiftr"} -> "DevCredentialCacheCollision"
+                  [] k = "magic" -> "DevUnknownUserDummyPassword"
+                  [] OTHER -> ""
 \* ground truth of the property: the credentials match a configured user
 Matches(c, k) ==
   \/ k = "valid" /\ Usable(c.users)
@@ -202,7 +250,7 @@ WsUpgrade(tok) ==
      IF cfg.auth /\ ~ok
        THEN Stay(tok, "closed", <<"H401">>)
        ELSE /\ phase' = "greet" /\ sentValid' = (sentValid \/ ok)
-            /\ UNCHANGED <<cfg, method, authed, exec, nrep, udpVars>>
+            /\ UNCHANGED <<cfg, method, authed, exec, nrep, warm, nconn, udpVars>>
             /\ Obs(tok, <<"H101">>, "", "")
 
 (* ---- greeting / method selection (Handler.authenticate) -------------------*)
@@ -216,7 +264,7 @@ Greet(tok) ==
             THEN Stay(tok, "closed", <<"M255">>)
             ELSE /\ method' = a
                  /\ phase' = IF a = "noauth" THEN "req" ELSE "auth"
-                 /\ UNCHANGED <<cfg, authed, sentValid, exec, nrep, udpVars>>
+                 /\ UNCHANGED <<cfg, authed, sentValid, exec, nrep, warm, nconn, udpVars>>
                  /\ ObsD(tok, <<IF a = "noauth" THEN "M0" ELSE "M2">>, "", "",
                          IF cfg.auth /\ a = "noauth" THEN "DevEmptyListDefaultsToNoAuth" ELSE "")
 
@@ -229,10 +277,10 @@ Auth(tok) ==
              [] OTHER ->
                 /\ sentValid' = (sentValid \/ Matches(cfg, tok.k))
                 /\ IF Accepts(cfg, tok.k)
-                     THEN phase' = "req" /\ authed' = TRUE
-                          /\ ObsD(tok, <<"A0">>, "", "", IF tok.k = "emptypw" THEN "DevEmptyPasswordMatches" ELSE "")
-                     ELSE phase' = "closed" /\ authed' = authed /\ Obs(tok, <<"A1">>, "", "")
-                /\ UNCHANGED <<cfg, method, exec, nrep, udpVars>>
+                     THEN phase' = "req" /\ authed' = TRUE /\ warm' = (warm \/ tok.k = "valid")
+                          /\ ObsD(tok, <<"A0">>, "", "", AcceptDev(tok.k))
+                     ELSE phase' = "closed" /\ authed' = authed /\ warm' = warm /\ Obs(tok, <<"A1">>, "", "")
+                /\ UNCHANGED <<cfg, method, exec, nrep, nconn, udpVars>>
      \* a request sent instead of credentials: first byte 5 is not sub-negotiation version 1
      \/ /\ tok.t = "R" /\ tok.k = "full" /\ Stay(tok, "closed", <<>>)
 
@@ -241,16 +289,19 @@ DialReply(d) == CASE d = "ok" -> "R0" [] d = "refused" -> "R4" [] d = "timeout" 
                   [] OTHER -> "R1"
 
 Reply(tok, ph, r) ==   \* a SOCKS5 reply without executing anything
-  /\ phase' = ph /\ nrep' = nrep + 1 /\ UNCHANGED <<cfg, method, authed, sentValid, exec, udpVars>>
+  /\ phase' = ph /\ nrep' = nrep + 1 /\ UNCHANGED <<cfg, method, authed, sentValid, exec, warm, nconn, udpVars>>
   /\ Obs(tok, <<r>>, "", "")
 
 Execute(tok, c, ph, r) ==
   /\ exec' = c /\ phase' = ph /\ nrep' = nrep + 1
-  /\ UNCHANGED <<cfg, method, authed, sentValid, ndg, nmr, client, relayed, replies>>
+  /\ UNCHANGED <<cfg, method, authed, sentValid, warm, nconn, ndg, nmr, client, relayed, replies>>
   /\ IF c = "udp" /\ ph = "udp"
-       THEN assoc' = "open" /\ declared' = (tok.addr \in {"ip4", "ip6"})
-       ELSE UNCHANGED <<assoc, declared>>
-  /\ Obs(tok, <<r>>, c, "")
+       THEN LET d == DeclOf(tok.addr)
+                \* handleUDPAssociate stores the address named in the request (0.0.0.0 / a domain name: none)
+                kept == IF "DevDeclaredDroppedWhenPeerUnknown" \in Dev /\ (cfg.tr = "ws" \/ d # "own") THEN "none" ELSE d
+            IN assoc' = "open" /\ reqdecl' = d /\ declared' = kept
+               /\ ObsD(tok, <<r>>, c, "", IF kept # d THEN "DevDeclaredDroppedWhenPeerUnknown" ELSE "")
+       ELSE UNCHANGED <<assoc, declared, reqdecl>> /\ Obs(tok, <<r>>, c, "")
 
 Req(tok) ==
   /\ phase = "req"
@@ -278,44 +329,72 @@ Eof(tok) ==
   /\ tok.t = "EOF" /\ phase # "closed"
   /\ phase' = "closed"
   /\ assoc' = IF assoc = "open" THEN "closed" ELSE assoc
-  /\ UNCHANGED <<cfg, hsVars, declared, client, relayed, replies, ndg, nmr>>
+  /\ UNCHANGED <<cfg, hsVars, declared, reqdecl, client, relayed, replies, ndg, nmr>>
+  /\ Obs(tok, <<>>, "", "")
+
+(* ---- the next client connects to the same server (Server.acceptLoop) -------*)
+NewConn(tok) ==
+  /\ tok.t = "NC" /\ phase = "closed" /\ assoc # "open" /\ nconn < MaxConns
+  /\ nconn' = nconn + 1
+  /\ phase' = IF cfg.tr = "ws" THEN "http" ELSE "greet"
+  /\ method' = "none" /\ authed' = FALSE /\ sentValid' = FALSE /\ exec' = "" /\ nrep' = 0
+  /\ assoc' = "none" /\ declared' = "none" /\ reqdecl' = "none" /\ client' = "none" /\ relayed' = <<>> /\ replies' = <<>>
+  /\ ndg' = 0 /\ nmr' = 0
+  /\ UNCHANGED <<cfg, warm>>
   /\ Obs(tok, <<>>, "", "")
 
 (* ---- UDP association (UDPAssociation.ReadLoop / WriteToClient) -------------*)
-(* Ideal: a datagram is considered only if its source IP is the source IP of   *)
-(* the TCP control connection (which is also the only address a client may     *)
-(* sensibly declare).  The first such datagram fixes the reply address.        *)
+(* Ideal (UDPAssociation.isFromClient): a datagram is considered only if its   *)
+(* source IP is the control connection's peer IP - when the handler can see    *)
+(* it (plain TCP) - AND equals the declared address if one was declared.  The   *)
+(* first datagram that passes fixes the reply address.                          *)
+PeerKnown == cfg.tr = "raw"
+IdealAccept(s) == (PeerKnown => IpOf(s) = "own") /\ (declared = "none" \/ declared = IpOf(s))
+Accept(s) ==
+  IF "DevDeclaredOverridesPeer" \in Dev
+    THEN (IF declared # "none" THEN declared = IpOf(s) ELSE (PeerKnown => IpOf(s) = "own"))
+    ELSE IdealAccept(s)
+\* whose datagrams the statement allows to be served: see the header (OwnerIp = "any": nothing to check)
+OwnerIp == IF PeerKnown THEN "own" ELSE IF reqdecl # "none" THEN reqdecl ELSE "any"
+Foreign(s) == OwnerIp # "any" /\ IpOf(s) # OwnerIp
+DgDev(s) == IF ~Foreign(s) THEN ""
+            ELSE IF "DevFirstSenderBecomesClient" \in Dev THEN "DevFirstSenderBecomesClient"
+            ELSE IF declared # reqdecl THEN "DevDeclaredDroppedWhenPeerUnknown"
+            ELSE "DevDeclaredOverridesPeer"
+
 Datagram(tok) ==
   /\ tok.t = "DG" /\ assoc # "none" /\ ndg < MaxDgrams
   /\ ndg' = ndg + 1
-  /\ UNCHANGED <<cfg, phase, hsVars, assoc, declared, replies, nmr>>
+  /\ UNCHANGED <<cfg, phase, hsVars, assoc, declared, reqdecl, replies, nmr>>
   /\ IF assoc = "closed"
        THEN UNCHANGED <<client, relayed>> /\ Obs(tok, <<>>, "", "gone")
        ELSE IF "DevFirstSenderBecomesClient" \in Dev
-         THEN LET d == IF IpOf(tok.s) # "own" THEN "DevFirstSenderBecomesClient" ELSE "" IN
+         THEN \* reply address recorded before any filtering; filter only against a declared address
               /\ client' = IF client = "none" THEN tok.s ELSE client
-              /\ IF (~declared \/ IpOf(tok.s) = "own") /\ tok.k = "ok"
-                   THEN relayed' = Append(relayed, tok.s) /\ ObsD(tok, <<>>, "", "relayed", d)
+              /\ IF (declared = "none" \/ declared = IpOf(tok.s)) /\ tok.k = "ok"
+                   THEN relayed' = Append(relayed, tok.s) /\ ObsD(tok, <<>>, "", "relayed", DgDev(tok.s))
                    ELSE relayed' = relayed
-                        /\ ObsD(tok, <<>>, "", "ignored", IF client = "none" THEN d ELSE "")
-         ELSE IF IpOf(tok.s) # "own"
+                        /\ ObsD(tok, <<>>, "", "ignored", IF client = "none" THEN DgDev(tok.s) ELSE "")
+         ELSE IF ~Accept(tok.s)
            THEN UNCHANGED <<client, relayed>> /\ Obs(tok, <<>>, "", "ignored")
            ELSE /\ client' = IF client = "none" THEN tok.s ELSE client
                 /\ IF tok.k = "ok"
-                     THEN relayed' = Append(relayed, tok.s) /\ Obs(tok, <<>>, "", "relayed")
-                     ELSE relayed' = relayed /\ Obs(tok, <<>>, "", "ignored")
+                     THEN relayed' = Append(relayed, tok.s) /\ ObsD(tok, <<>>, "", "relayed", DgDev(tok.s))
+                     ELSE relayed' = relayed
+                          /\ ObsD(tok, <<>>, "", "ignored", IF client = "none" THEN DgDev(tok.s) ELSE "")
 
 MeshReply(tok) ==
   /\ tok.t = "MR" /\ assoc # "none" /\ nmr < MaxReplies
   /\ nmr' = nmr + 1
-  /\ UNCHANGED <<cfg, phase, hsVars, assoc, declared, client, relayed, ndg>>
+  /\ UNCHANGED <<cfg, phase, hsVars, assoc, declared, reqdecl, client, relayed, ndg>>
   /\ IF assoc = "closed" THEN replies' = replies /\ Obs(tok, <<>>, "", "closed")
      ELSE IF client = "none" THEN replies' = replies /\ Obs(tok, <<>>, "", "noclient")
      ELSE replies' = Append(replies, client)
-          /\ ObsD(tok, <<>>, "", "sent", IF IpOf(client) # "own" THEN "DevFirstSenderBecomesClient" ELSE "")
+          /\ ObsD(tok, <<>>, "", "sent", DgDev(client))
 
 (* ---- one server step for one client token ---------------------------------*)
 Step(tok) == WsUpgrade(tok) \/ Greet(tok) \/ Auth(tok) \/ Req(tok) \/ Eof(tok) \/ Datagram(tok) \/ MeshReply(tok)
+             \/ NewConn(tok)
 
 Next ==
   \/ \E tok \in WsTokens : Step(tok)
@@ -325,6 +404,7 @@ Next ==
   \/ \E s \in DgSenders, k \in DgKinds : Step(D(s, k))
   \/ Step(MR)
   \/ Step(EOF)
+  \/ Step(NC)
 
 Spec == Init /\ [][Next]_vars
 
@@ -343,9 +423,9 @@ NoAuthOnlyWhenOff == method = "noauth" => ~cfg.auth
 AuthedIsGenuine == authed => sentValid
 
 \* C22: only the owner's datagrams are relayed; replies go only to the owner
-OnlyOwnerRelayed == \A i \in DOMAIN relayed : IpOf(relayed[i]) = "own"
-RepliesOnlyToOwner == \A i \in DOMAIN replies : IpOf(replies[i]) = "own"
-ClientIsOwner == client # "none" => IpOf(client) = "own"
+OnlyOwnerRelayed == \A i \in DOMAIN relayed : ~Foreign(relayed[i])
+RepliesOnlyToOwner == \A i \in DOMAIN replies : ~Foreign(replies[i])
+ClientIsOwner == client # "none" => ~Foreign(client)
 
 \* C23 (state-machine part): at most one SOCKS5 reply per connection, and an executed command was replied to
 OneReply == nrep <= 1 /\ (exec # "" => nrep = 1)
@@ -354,10 +434,11 @@ EmitEdge ==
   Emit => PrintT("EDGE " \o ToJson(
      [s |-> [cfg |-> cfg, phase |-> phase, method |-> method, authed |-> authed, sentValid |-> sentValid,
              exec |-> exec, assoc |-> assoc,
-             declared |-> declared, client |-> client, relayed |-> relayed, replies |-> replies,
-             ndg |-> ndg, nmr |-> nmr],
+             declared |-> declared, reqdecl |-> reqdecl, warm |-> warm, nconn |-> nconn,
+             client |-> client, relayed |-> relayed, replies |-> replies, ndg |-> ndg, nmr |-> nmr],
       a |-> last',
       t |-> [cfg |-> cfg', phase |-> phase', method |-> method', authed |-> authed', sentValid |-> sentValid',
-             exec |-> exec', assoc |-> assoc', declared |-> declared', client |-> client', relayed |-> relayed',
-             replies |-> replies', ndg |-> ndg', nmr |-> nmr']]))
+             exec |-> exec', assoc |-> assoc', declared |-> declared', reqdecl |-> reqdecl', warm |-> warm',
+             nconn |-> nconn', client |-> client', relayed |-> relayed', replies |-> replies', ndg |-> ndg',
+             nmr |-> nmr']]))
 =============================================================================
